@@ -25,6 +25,11 @@ CHECKS = {
                      'one, two and three successive checkpoint/restore cycles, incl. the original iterator continuing after the checkpoint and '
                      'a double restore from one captured state; z3 proves "delivered-before ++ delivered-after == uninterrupted" and equal final '
                      'aggregates on every path. Bounded; threaded configurations are outside the claim.'),
+    'C12': dict(engine='xh', level='other', design_ref='DESIGN.md#c12',
+                text='The real error-skipping paths (iter_ignore_error, processed_with_inputs tee alignment, _RangeIterator skip-on-error with '
+                     'read-ahead fallback, TreeFn/Assign/FilterFn/Sink iterate, _RunnerIterator) are executed symbolically with one symbolic failure bit per '
+                     'element for operators and for the data source, skipping on and off; z3-backed path exploration covers every fault schedule inside '
+                     'the bounds and proves: survivors delivered once, in order, aligned; first error surfaces with its cause, iteration stops, sink closed. Bounded; threads outside.'),
 }
 NA = {}
 PENDING = 'check not built yet (see DESIGN.md build order)'
